@@ -364,7 +364,7 @@ theorem nextE_link_root {σ} (snap : Snap) (o : Opts) (preOp : Entry → σ → 
     (hmin : o.minDepth = 0) (hfiles : o.files = false) (hdirs : o.dirs = false) :
     nextE snap o preOp e (n + 1) {} w = (some (.ok e), { started := true }, w) := by
   by_cases hc : e.dir = true ∧ o.contentsFirst = true
-  · simp [nextE, process, hf, hl, hmin, hc, doFollow_false, nextLoop]
+  · simp [nextE, process, hf, hl, hmin, hfiles, hdirs, hc, doFollow_false, nextLoop]
   · simp [nextE, process, hf, hl, hmin, hfiles, hdirs, hc, doFollow_false]
 
 theorem nextE_done {σ} (snap : Snap) (o : Opts) (preOp : Entry → σ → Outcome Unit × σ)
